@@ -45,6 +45,7 @@ AllComposites(rec) == UNION {ExpectedComposites(rec.env, rec.tables[i]) : i \in 
 
 Why(rec) ==
     IF rec.outcome # "ok" THEN "the SQL generator did not complete: " \o rec.outcome
+    ELSE IF rec.syntax = "unterminated string" THEN "the SQL script is not lexically valid: a string literal never ends (a quote inside a literal is not doubled)"
     ELSE IF rec.syntax # "" THEN "harness: SQL output not understood: " \o rec.syntax
     ELSE LET bad == {i \in 1..Len(rec.tables) : TableWhy(rec, rec.tables[i]) # ""} IN
     IF bad # {} THEN TableWhy(rec, rec.tables[CHOOSE i \in bad : \A j \in bad : i <= j])
